@@ -20,6 +20,19 @@ func genMapCase(t *rapid.T) MapCase {
 		Zero: rapid.IntRange(0, 19).Draw(t, "zero") == 0,
 		Mag:  rapid.SampledFrom([]int{0, 0, 1, 1, 2}).Draw(t, "mag"),
 	}
+	// Key and value types: about half of the cases keep int keys (and,
+	// independently, int values) as before; the others are spread over the
+	// kinds.  Half of the cases with another key kind put their keys at the
+	// ends of the key type's range.
+	if !rapid.Bool().Draw(t, "elemDefault") {
+		c.Elem = rapid.SampledFrom(mapKeyKinds).Draw(t, "elem")
+		if rapid.Bool().Draw(t, "span") {
+			c.Span = 1
+		}
+	}
+	if !rapid.Bool().Draw(t, "valDefault") {
+		c.Val = rapid.SampledFrom(mapValKinds).Draw(t, "val")
+	}
 	gop := rapid.Custom(func(t *rapid.T) MOp {
 		return MOp{Kind: rapid.SampledFrom(mopKinds).Draw(t, "k"), A: rapid.IntRange(0, 600).Draw(t, "a"), B: rapid.IntRange(0, 1).Draw(t, "b"), I: rapid.IntRange(0, 2).Draw(t, "slot")}
 	})
